@@ -65,7 +65,7 @@ class Contracts:
                     raise Undecided("%s:%d: bad section header" % (fname, ln))
                 item, anchor = parts[0], parts[1:]
                 a0 = anchor[0]
-                if a0 in ("ret", "t8", "t10", "foriter", "external", "skip_body", "trait", "rename", "strip_mut", "t14", "nocanary"):
+                if a0 in ("ret", "t8", "t8p", "t10", "foriter", "external", "skip_body", "trait", "rename", "strip_mut", "t14", "nocanary"):
                     self.flags.setdefault(item, {}).setdefault(a0, []).append(anchor[1:])
                     cur = None
                     continue
@@ -379,6 +379,20 @@ def emit_fn(data, it, ckey, C, tlog, anchors_used, canary=False):
             if f["tail"] is not None and f["ret"] is not None:
                 raise Undecided("anchor `exit` on %s, which has a tail expression (use before_tail)" % it["path"])
             ed.insert(f["body_close"], text.rstrip("\n") + "\n    ", order=0)
+        elif parts[0] in ("before_call", "after_call"):
+            # the statement that holds the K-th call (source order of the call expressions' start) of a function / method
+            # named NAME, at any nesting depth: `after_call remove_config 1`
+            nm, k = parts[1], int(parts[2]) if len(parts) > 2 else 1
+            cands = sorted([c for c in f.get("calls", []) if c["name"] == nm and not c.get("in_closure")], key=lambda c: c["start"])
+            if k < 1 or k > len(cands):
+                raise Undecided("lost anchor: call #%d of `%s` in %s (there are %d)" % (k, nm, it["path"], len(cands)))
+            st = cands[k - 1].get("stmt")
+            if not st:
+                raise Undecided("lost anchor: call #%d of `%s` in %s is not inside a statement" % (k, nm, it["path"]))
+            if parts[0] == "before_call":
+                ed.insert(st["start"], text, order=0)
+            else:
+                ed.insert(st["end"], "\n" + text, order=0)
         elif parts[0] == "before_stmt":
             # top-level statement ordinal (1-based) of the fn body
             k = int(parts[1])
@@ -401,6 +415,18 @@ def emit_fn(data, it, ckey, C, tlog, anchors_used, canary=False):
         meth = "iter_mut" if m.group(1) else "iter"
         ed.replace(l["expr"]["start"], l["expr"]["end"], "%s.%s()" % (m.group(2), meth))
         tlog.append({"t": "T8", "item": it["path"], "loop": n, "from": ex, "to": "%s.%s()" % (m.group(2), meth)})
+    # T8 (plain form): `for p in E` where E is already a reference to a std collection -> `for p in E.iter()`
+    for t8 in C.flag(ckey, "t8p"):
+        n = int(t8[0])
+        if n not in loops or loops[n]["kind"] != "for":
+            raise Undecided("lost anchor: T8 for-loop %d of %s" % (n, it["path"]))
+        l = loops[n]
+        ex = data[l["expr"]["start"]:l["expr"]["end"]].decode()
+        if not re.match(r"^[A-Za-z_][A-Za-z0-9_\.]*$", ex):
+            raise Undecided("T8p not applicable to loop %d of %s: `%s`" % (n, it["path"], ex))
+        ed.replace(l["expr"]["start"], l["expr"]["end"], "%s.iter()" % ex)
+        tlog.append({"t": "T8", "item": it["path"], "loop": n, "from": ex, "to": "%s.iter()" % ex,
+                     "note": "E is a shared reference to a std collection: IntoIterator for &C is C::iter()"})
     for fi in C.flag(ckey, "foriter"):
         n = int(fi[0]); nm = fi[1]
         if n not in loops or loops[n]["kind"] != "for":
